@@ -32,6 +32,9 @@ pub struct Nlp {
     nump: u8,
 
     /// Node, lap and position of each player.
+    // LFS keeps the packet size a multiple of 4: an odd number of 6-byte entries is followed by 2 spare bytes
     #[br(count = nump)]
+    #[br(pad_after = if nump % 2 == 1 { 2 } else { 0 })]
+    #[bw(pad_after = if info.len() % 2 == 1 { 2 } else { 0 })]
     pub info: Vec<NodeLapInfo>,
 }
